@@ -213,3 +213,12 @@ A(V("c19-ds-attr-renamed", "C19", DSL, "            axisElement.attrib[\"hidden\
 A(V("c19-ds-elem-renamed", "C19", DSL, "        mappingElement = ET.Element(\"mapping\")", "        mappingElement = ET.Element(\"axismapping\")", "F7-ds"))
 A(V("c19-plist-handler", "C19", "misc/plistlib/__init__.py", "_make_element.register(bytearray)(_data_element)\n", "", "F7-plist"))
 A(V("c19-maxlen", "C19", "ufoLib/filenames.py", "maxFileNameLength: int = 255", "maxFileNameLength: int = 256", "F28"))
+
+# ---- C10 -------------------------------------------------------------------
+VL = "varLib/__init__.py"
+A(V("c10-mvar-swap", "C10", "varLib/mvar.py", '    "hasc": ("OS/2", "sTypoAscender"),  # horizontal ascender\n    "hdsc": ("OS/2", "sTypoDescender"),  # horizontal descender', '    "hasc": ("OS/2", "sTypoDescender"),  # horizontal ascender\n    "hdsc": ("OS/2", "sTypoAscender"),  # horizontal descender', "MVAR"))
+A(V("c10-mvar-typo", "C10", "varLib/mvar.py", '("OS/2", "sCapHeight")', '("OS/2", "sCapheight")', "MVAR"))
+A(V("c10-builder-uncalled", "C10", VL, "    if \"VVAR\" not in exclude and \"vmtx\" in vf:\n        _add_VVAR(vf, model, master_fonts, axisTags)\n", "", "BUILD"))
+A(V("c10-wrong-guard", "C10", VL, "    if \"MVAR\" not in exclude:\n        _add_MVAR(vf, model, master_fonts, axisTags)", "    if \"HVAR\" not in exclude:\n        _add_MVAR(vf, model, master_fonts, axisTags)", "BUILD"))
+A(V("c10-model-sorted", "C10", VL, "    normalized_master_locs = [\n        {ds.axes[k].tag: v for k, v in loc.items()} for loc in ds.normalized_master_locs\n    ]", "    normalized_master_locs = sorted(\n        ({ds.axes[k].tag: v for k, v in loc.items()} for loc in ds.normalized_master_locs), key=repr\n    )", "BUILD"))
+A(V("c10-default-unmapped", "C10", "designspaceLib/__init__.py", "axis.map_forward(axis.default)", "axis.default", "F22-axis", count=2))
